@@ -2230,14 +2230,14 @@ class Interp:
             elif p.arg in kwargs:
                 callee.env[p.arg] = kwargs[p.arg]
             elif defaults[i] is not None:
-                callee.env[p.arg] = self._eval_default(fi, defaults[i])
+                callee.env[p.arg] = self._eval_default(fi, defaults[i], closure_env)
             else:
                 callee.env[p.arg] = ("param?", q, p.arg)
         for p, d in zip(a.kwonlyargs, a.kw_defaults):
             if p.arg in kwargs:
                 callee.env[p.arg] = kwargs[p.arg]
             elif d is not None:
-                callee.env[p.arg] = self._eval_default(fi, d)
+                callee.env[p.arg] = self._eval_default(fi, d, closure_env)
         if a.vararg is not None:
             callee.env[a.vararg.arg] = ("tuple", tuple(pos[len(params):]))
         if self.is_generator(fi):
@@ -2268,7 +2268,15 @@ class Interp:
                 self.types.setdefault(rv, c)
         return rv
 
-    def _eval_default(self, fi: FuncInfo, d: ast.expr):
+    def _eval_default(self, fi: FuncInfo, d: ast.expr, closure_env=None):
+        if isinstance(d, ast.Name):
+            if closure_env and d.id in closure_env:
+                return closure_env[d.id]        # ``lambda m, v=v: ...``: bound where the function was made
+            r = self.facts.resolve_name(fi.module, d.id)
+            if r is not None and r[0] == "global":
+                gv = r[1].globals.get(r[2])
+                if isinstance(gv, ast.Constant) and not self._global_rebound(r[1], r[2]):
+                    return const(gv.value)      # a named constant
         try:
             return const(ast.literal_eval(d)) if not isinstance(d, (ast.List, ast.Dict, ast.Set, ast.Call)) else ("mutable_default", fi.qualname, ast.unparse(d))
         except Exception:
